@@ -672,7 +672,7 @@ func (s *sharedEntryAttributes) NavigateSdcpbPath(ctx context.Context, pathElems
 
 	switch pathElems[0].Name {
 	case ".":
-		s.NavigateSdcpbPath(ctx, pathElems[1:], false)
+		return s.NavigateSdcpbPath(ctx, pathElems[1:], false)
 	case "..":
 		var entry Entry
 		entry = s.parent
@@ -707,8 +707,15 @@ func (s *sharedEntryAttributes) NavigateSdcpbPath(ctx context.Context, pathElems
 			return e, nil
 		}
 
-		for _, v := range pathElems[0].Key {
-			e, err = e.Navigate(ctx, []string{v}, false)
+		// the key levels of the tree follow the names of the keys in ascending order (utils.ToStrings); a map
+		// hands them out in any order
+		keyNames := make([]string, 0, len(pathElems[0].Key))
+		for k := range pathElems[0].Key {
+			keyNames = append(keyNames, k)
+		}
+		slices.Sort(keyNames)
+		for _, k := range keyNames {
+			e, err = e.Navigate(ctx, []string{pathElems[0].Key[k]}, false)
 			if err != nil {
 				return nil, err
 			}
